@@ -26,6 +26,7 @@ pub fn run(prop: &str, opts: &Opts) -> bool {
         "c03" => c03::run(opts),
         "c04" => c04::run(opts),
         "c04feed" => c04::feed(opts),
+        "fuzzseeds" => c04::fuzz_seeds(opts),
         "c05" => c05::run(opts),
         "c06" => c06::run(opts),
         "c07" => c07::run(opts),
